@@ -1,73 +1,57 @@
----- MODULE Selection ----
-EXTENDS Dominance, TLC, FiniteSetsExt
-\* ---------- crowding distance as an exact rational <<num, den>>, or INF ----------
-INF == <<1, 0>>
-ValsOf(F, d) == { F[i].c[d] : i \in DOMAIN F }
-NoTies(F) == \A d \in Idx : Cardinality(ValsOf(F, d)) = Len(F)
-Span(F, d) == Max(ValsOf(F, d)) - Min(ValsOf(F, d))
-Boundary(F, i) == \E d \in Idx : F[i].c[d] = Min(ValsOf(F, d)) \/ F[i].c[d] = Max(ValsOf(F, d))
-Gap(F, i, d) == Min({ v \in ValsOf(F, d) : v > F[i].c[d] }) - Max({ v \in ValsOf(F, d) : v < F[i].c[d] })
-\* sum over objectives of gap/range with common denominator D = product of the ranges (all > 0 without ties, n >= 3)
-RECURSIVE Prod(_, _)
-Prod(F, S) == IF S = {} THEN 1 ELSE LET d == CHOOSE x \in S : TRUE IN Span(F, d) * Prod(F, S \ {d})
-RECURSIVE SumNum(_, _, _)
-SumNum(F, i, S) == IF S = {} THEN 0 ELSE LET d == CHOOSE x \in S : TRUE IN
-                     Gap(F, i, d) * Prod(F, Idx \ {d}) + SumNum(F, i, S \ {d})
-ExactCD(F, i) == IF Len(F) <= 2 \/ Boundary(F, i) THEN INF ELSE <<SumNum(F, i, Idx), Prod(F, Idx)>>
-RatEq(a, b) == a[1] * b[2] = b[1] * a[2] /\ (a[2] = 0) = (b[2] = 0)
-RatLeq(a, b) == IF b[2] = 0 THEN TRUE ELSE IF a[2] = 0 THEN FALSE ELSE a[1] * b[2] <= b[1] * a[2]
-\* the property (F: front as a sequence of vectors, cd: observed distances, same indexing)
-CrowdingOK(F, cd) ==
-  /\ DOMAIN cd = DOMAIN F
-  /\ Len(F) <= 2 => \A i \in DOMAIN F : cd[i] = INF
-  /\ (Len(F) >= 3 /\ NoTies(F)) => \A i \in DOMAIN F : RatEq(cd[i], ExactCD(F, i))
-  /\ (Len(F) >= 3 /\ ~NoTies(F)) =>
-        /\ \A i \in DOMAIN F : cd[i] = INF \/ (cd[i][1] >= 0 /\ cd[i][2] > 0 /\ cd[i][1] <= M * cd[i][2])
-        /\ \A d \in Idx : /\ \E i \in DOMAIN F : F[i].c[d] = Min(ValsOf(F, d)) /\ cd[i] = INF
-                          /\ \E i \in DOMAIN F : F[i].c[d] = Max(ValsOf(F, d)) /\ cd[i] = INF
-\* ---------- truncation ----------
-\* P: sequence of records [k: design key, v: Vec, front: Nat, cd: rational]; kept: set of indices
-Keys(P) == { P[i].k : i \in DOMAIN P }
-TruncOK(P, size, kept) ==
-  LET keptKeys == { P[i].k : i \in kept }
-      dropped  == { i \in DOMAIN P : P[i].k \notin keptKeys }
-  IN /\ kept \subseteq DOMAIN P
-     /\ Cardinality(kept) = Min({size, Cardinality(Keys(P))})
-     /\ Cardinality(keptKeys) = Cardinality(kept)                       \* each design at most once
-     /\ \A s \in kept, d \in dropped : P[s].front <= P[d].front          \* rank first
-     /\ (Cardinality(Keys(P)) = Len(P)) =>                               \* all designs distinct: crowding second
-          \A s \in kept, d \in dropped : P[s].front = P[d].front => RatLeq(P[d].cd, P[s].cd)
-\* consequence claimed by the property
-Elitist(P, kept) == \A s \in kept, d \in DOMAIN P :
-                      (P[d].k \notin { P[i].k : i \in kept }) => ParetoCmp(P[d].v, P[s].v) # 1
-\* ---------- tournament ----------
-TournOK(a, b, res) == /\ res \in {"a", "b"}
-                      /\ a.front < b.front => res = "a"
-                      /\ b.front < a.front => res = "b"
-                      /\ (a.front = b.front /\ ParetoCmp(a.v, b.v) = 1) => res = "a"
-                      /\ (a.front = b.front /\ ParetoCmp(a.v, b.v) = 2) => res = "b"
-\* ---------- sanity model: the reference truncation satisfies TruncOK and implies Elitist ----------
-CONSTANT MaxN
-VARIABLES pop, done
-Dominators(P, i) == { j \in DOMAIN P : ParetoCmp(P[j], P[i]) = 1 }
-Rank(P) == LET RECURSIVE rk(_)
-               rk(i) == IF Dominators(P, i) = {} THEN 1 ELSE 1 + Max({ rk(j) : j \in Dominators(P, i) })
-           IN [ i \in DOMAIN P |-> rk(i) ]
-Init == pop \in UNION { [1..k -> Vec] : k \in 1..MaxN } /\ done = FALSE
-Next == UNCHANGED <<pop, done>>
-Spec == Init /\ [][Next]_<<pop, done>>
-RefTruncSound ==
-  LET r == Rank(pop)
-      P == [ i \in DOMAIN pop |-> [k |-> i, v |-> pop[i], front |-> r[i], cd |-> INF] ]
-  IN \A size \in 1..Len(pop) : \A kept \in SUBSET (DOMAIN pop) :
-       (Cardinality(kept) = size /\ \A s \in kept, d \in (DOMAIN pop) \ kept : r[s] <= r[d])
-         => (TruncOK(P, size, kept) /\ Elitist(P, kept))
-\* every outcome allowed by TruncOK is elitist (the "hence" of the property)
-TruncImpliesElitist ==
-  LET r == Rank(pop)
-      P == [ i \in DOMAIN pop |-> [k |-> i, v |-> pop[i], front |-> r[i], cd |-> INF] ]
-  IN \A size \in 1..(Len(pop) + 1) : \A kept \in SUBSET (DOMAIN pop) : TruncOK(P, size, kept) => Elitist(P, kept)
-\* crowding: the exact formula satisfies the relaxed clause shape (sanity of the two clauses)
-ExactInRange == (Len(pop) >= 3 /\ NoTies(pop)) =>
-   \A i \in DOMAIN pop : LET c == ExactCD(pop, i) IN c = INF \/ (c[1] >= 0 /\ c[1] <= M * c[2])
-====
+------------------------------ MODULE Selection ------------------------------
+(* C03 -- environmental selection as a state machine: a population is ranked (true Pareto ranks, exact crowding
+   distance per front), then truncated to `size` by ANY outcome the property's relation TruncOK allows, then a binary
+   tournament is played between two survivors by ANY outcome TournOK allows.  TLC checks the "hence" of the property:
+   every allowed truncation is elitist (no survivor dominated by a discarded design), survivors have the right count,
+   the reference implementation order (front ascending, crowding descending) is one of the allowed outcomes, the exact
+   crowding value lies in [0, M], and a tournament winner is never dominated by the loser at equal rank.        *)
+EXTENDS SortOps, Sequences
+CONSTANTS M, Vals, Marks, MaxN
+Vec == [c : [1..M -> Vals], m : Marks]
+Pops == UNION { [1..k -> Vec] : k \in 1..MaxN }
+VARIABLES pop, phase, P, kept, size, win
+vars == <<pop, phase, P, kept, size, win>>
+\* members of front f as a sequence (population order) and the exact crowding distance of member i inside its front
+FrontIdx(rk, f) == SelectSeq([ i \in 1..Len(rk) |-> i ], LAMBDA i : rk[i] = f)
+CDOf(rk, i) == LET idx == FrontIdx(rk, rk[i])
+                   F   == [ j \in DOMAIN idx |-> pop[idx[j]] ]
+                   pos == CHOOSE j \in DOMAIN idx : idx[j] = i
+               IN ExactCD(F, pos)
+Init == pop \in Pops /\ phase = "new" /\ P = <<>> /\ kept = <<>> /\ size = 0 /\ win = 0
+Rank == /\ phase = "new"
+        /\ LET rk == TrueRank(pop) IN
+           P' = [ i \in DOMAIN pop |-> [k |-> i, v |-> pop[i], front |-> rk[i], cd |-> CDOf(rk, i)] ]
+        /\ phase' = "ranked" /\ UNCHANGED <<pop, kept, size, win>>
+SeqsOver(S, n) == { s \in [1..n -> S] : \A a, b \in 1..n : a # b => s[a] # s[b] }
+Truncate(sz) == /\ phase = "ranked"
+                /\ \E n \in 0..Len(P) : \E ks \in SeqsOver(DOMAIN P, n) :
+                     TruncOK(P, sz, ks) /\ kept' = ks
+                /\ size' = sz /\ phase' = "truncated" /\ UNCHANGED <<pop, P, win>>
+Tournament == /\ phase = "truncated" /\ Len(kept) >= 2
+              /\ \E a, b \in DOMAIN kept : a # b /\ \E r \in {"a", "b"} :
+                    /\ TournOK(P[kept[a]], P[kept[b]], r)
+                    /\ win' = [a |-> kept[a], b |-> kept[b], w |-> IF r = "a" THEN kept[a] ELSE kept[b]]
+              /\ phase' = "played" /\ UNCHANGED <<pop, P, kept, size>>
+Next == Rank \/ (\E sz \in 1..(MaxN + 1) : Truncate(sz)) \/ Tournament
+Spec == Init /\ [][Next]_vars
+\* reference: sort by (front asc, crowding desc) and slice -- what nondominated_truncate does for distinct designs
+RefOrderOK(ks) == \A a, b \in DOMAIN ks : a < b =>
+                     \/ P[ks[a]].front < P[ks[b]].front
+                     \/ (P[ks[a]].front = P[ks[b]].front /\ RatLeq(P[ks[b]].cd, P[ks[a]].cd))
+\* ---- properties ----
+TruncElitist == phase \in {"truncated", "played"} => Elitist(P, kept)
+TruncCount   == phase \in {"truncated", "played"} => Len(kept) = Min({size, Len(pop)})
+RefAllowed   == phase = "ranked" =>
+                  \A sz \in 1..(MaxN + 1) : \E ks \in SeqsOver(DOMAIN P, Min({sz, Len(P)})) :
+                        RefOrderOK(ks) /\ TruncOK(P, sz, ks)
+                        /\ \A d \in DOMAIN P : (\A j \in DOMAIN ks : ks[j] # d) =>
+                              \A j \in DOMAIN ks : P[ks[j]].front < P[d].front
+                                                   \/ (P[ks[j]].front = P[d].front /\ RatLeq(P[d].cd, P[ks[j]].cd))
+CDInRange    == phase # "new" => \A i \in DOMAIN P : P[i].cd = INF \/ (P[i].cd[1] >= 0 /\ P[i].cd[1] <= M * P[i].cd[2])
+\* the tournament never returns the worse-ranked candidate nor, at equal rank, the dominated one
+WinnerSound  == phase = "played" =>
+                  LET lo == IF win.w = win.a THEN win.b ELSE win.a IN
+                  /\ win.w \in {win.a, win.b}
+                  /\ P[win.w].front <= P[lo].front
+                  /\ (P[win.w].front = P[lo].front => ~Dominates(P[lo].v, P[win.w].v))
+=============================================================================
